@@ -40,13 +40,29 @@ func c10EarlyAlphabet(thorough bool) []string {
 	return a
 }
 
-func c10Drivers(thorough bool) []*engine.HDriver {
-	early := regDriver("teardown-before-discovery", c10EarlyAlphabet(thorough), true, false, nil)
-	step := early.Step
-	early.Step = func(hist []string, op string) engine.HStep {
-		return step(append(append([]string{}, c10EarlyPrelude...), hist...), op)
+// Writes pending approval of a peer that is not discovered yet: it announced an entity by a partial notification
+// (which does not give the remote device its address), bound a feature of it and wrote; pending approvals are
+// kept by SKI and have to go with the connection like those of a discovered peer.
+func c10EarlyWriteAlphabet(thorough bool) []string {
+	a := []string{"entadd:A:1", "entadd:B:1", "bind:A:e1f1:L1lc:lc:d", "bind:B:e1f1:L2lc:lc:d", "write:A:e1f1:L1lc:limit:ack:2", "write:B:e1f1:L2lc:limit:ack:2",
+		"disc:A", "disc:B", "fire", "ann:A"}
+	if thorough {
+		a = append(a, "reconn0:A", "entrm:A:1", "ann:B")
 	}
-	return []*engine.HDriver{regDriver("teardown", c10Alphabet(thorough), true, true, nil), early}
+	return a
+}
+
+func c10Drivers(thorough bool) []*engine.HDriver {
+	withPrelude := func(d *engine.HDriver) *engine.HDriver {
+		step := d.Step
+		d.Step = func(hist []string, op string) engine.HStep {
+			return step(append(append([]string{}, c10EarlyPrelude...), hist...), op)
+		}
+		return d
+	}
+	early := withPrelude(regDriver("teardown-before-discovery", c10EarlyAlphabet(thorough), true, false, nil))
+	earlyW := withPrelude(regDriver("teardown-before-discovery-pending-writes", c10EarlyWriteAlphabet(thorough), true, true, nil))
+	return []*engine.HDriver{regDriver("teardown", c10Alphabet(thorough), true, true, nil), early, earlyW}
 }
 
 func init() {
